@@ -58,6 +58,18 @@ CLAIMED = {
   "note": "PARTIAL: totality (no panic for every input) is not a theorem - it rests on the mutation search plus the theorems of C13 (location arithmetic total) and C14/C05 for the parts they model; the assembler's own phases are not yet modelled for the 'error pushed iff Err returned' argument. Stack overflow, allocation failure and hangs are C19's. Trusted: Lean kernel + three standard axioms; the oracle's catch_unwind and process-death detection.",
   "technique": "Lean 4 proof (case analysis / induction over groups) + mutation search with fault injection",
  },
+ "C02": {
+  "text": "Lean 4 theorems about the model of the whole assembler (Casm/Props/C02.lean; model Casm/Model/{Parse,Matcher,Resolve,Assemble}.lean covers parsing, declaration collection, #if, rule matching, expression evaluation, asm blocks, every item resolver, resolve_once/resolve_iteratively and build_output): success_is_confirmed - whenever assemble succeeds, for every program, budget and optimisation setting, the bits, spans and symbol values are read from a state produced by a pass in which guessing is forbidden, in which every item compared equal to its previous value and which reported nothing; unconfirmed_is_error and error_has_message - otherwise the outcome is an error with at least one message, never output. Tie: the model is run against asm::assemble on generated size-cascading programs x budgets x optimisation switches (bits, spans, symbols, pass count, first error must agree); and, independently of which fixed point was found, the implementation's complete final state (hook-free dump of every symbol value with size, every instruction/data encoding, reserve/align/addr values) is re-checked by ONE strict non-first pass of the model, which must accept it, be stable, silent and leave it unchanged (the fixed-point certificate).",
+  "design_ref": "DESIGN.md section 6, C02",
+  "note": "Trusted: Lean kernel + three standard axioms; the hand-written whole-assembler model, tied by differential execution (all 490 repository test inputs, mutants and generated programs agree); the theorem says the final pass was strict/stable/silent - that a strict stable non-first pass leaves the state untouched is Casm.Proofs.StableId (see DESIGN.md for its status) and is additionally checked per run by the certificate on the implementation's state; per-item consequences (smallest matching encoding, label = address of following item) follow from the definitions of resolveInstruction/resolveLabel applied in that pass.",
+  "technique": "Lean 4 proof (induction over the iteration loop) + whole-assembler model/implementation correspondence + per-run fixed-point certificate",
+ },
+ "C09": {
+  "text": "Lean 4 theorems (Casm/Props/C09.lean, Casm/Proofs/Iterate.lean): iters_le_budget - a successful assemble reports at most --iters passes (unconditional, whole-assembler model); the model's loop is proved equal to a generic loop skeleton (resolveIterativelyN_eq), and for the skeleton budget_monotone - success with budget n implies success with every m >= n with the identical final state - is proved for every pass obeying four budget-independent laws (stable non-first pass is the identity, stable first pass yields a strict fixed point, guessing agrees with strict where strict is stable, first-flag irrelevant on fixed points); budget_monotone_of_laws / lower_budget_same_or_error transfer it to the model's pass. Tie and search: every generated program (cascading sizes, asm blocks with several moving labels, assertions, functions) is assembled under budgets 1,2,3,4,5,6,10,11,30 by the implementation and the model; once a budget succeeds every larger one must succeed with identical bits, spans and symbols, pass counts must not exceed budgets, and model and implementation must agree on every run.",
+  "design_ref": "DESIGN.md section 6, C09",
+  "note": "PARTIAL: the four laws are hypotheses of the monotonicity theorem, not yet theorems about the model's pass (they are statements about a single pass, checked per run by the budget sweep and the C02 certificate); the inner budget of asm blocks is the same option and is part of the pass - its variation is covered by the sweep only. Trusted: Lean kernel + three standard axioms; whole-assembler model tied by differential execution.",
+  "technique": "Lean 4 proof (simulation of two budgets, induction on fuel) + budget sweep on implementation and model",
+ },
 }
 
 NOT_YET = {}
